@@ -131,23 +131,13 @@ Definition bytes := list N.
 Definition file_sends (h : bytes -> id) (g : gindex) (chunks : list bytes) : list id :=
   filter (fun c => gate Data (ghas g Data c)) (map h chunks).
 
-(* a chunker built from a "length of the first chunk" function (used for the examples:
-   every scanning chunker has this form) *)
-Fixpoint chunks_by (first : bytes -> nat) (fuel : nat) (s : bytes) : list bytes :=
-  match fuel, s with
-  | _, [] => []
-  | O, _ => [s]
-  | S f, _ => let n := Nat.max 1 (Nat.min (first s) (length s)) in
-              firstn n s :: chunks_by first f (skipn n s)
-  end.
-Definition chunker_of (first : bytes -> nat) (s : bytes) : list bytes := chunks_by first (length s) s.
-
-(* toy content-defined chunker: cut after a zero byte once the chunk has >= 2 bytes, or at 4 bytes *)
-Fixpoint toy_first_aux (n : nat) (s : bytes) : nat :=
+(* a small content-defined chunker for the examples: cut after every zero byte *)
+Fixpoint zcut (s : bytes) : list bytes :=
   match s with
-  | [] => n
-  | b :: r => let n' := S n in
-              if (4 <=? n') || ((2 <=? n') && N.eqb b 0) then n' else toy_first_aux n' r
+  | [] => []
+  | b :: r => if N.eqb b 0 then [b] :: zcut r
+              else match zcut r with
+                   | [] => [[b]]
+                   | c :: cs => (b :: c) :: cs
+                   end
   end.
-Definition toy_first (s : bytes) : nat := toy_first_aux 0 s.
-Definition toy_chunker := chunker_of toy_first.
